@@ -113,3 +113,10 @@ Proof.
   destruct (aligned_fits_proof c aligned_init [] size s' p Hc Hp Hal HA64 (ainv_init _ Hc) Hs H Hpnz) as (o & _ & _ & _ & _ & _ & Hf & _).
   exact Hf.
 Qed.
+
+(* false of the code (open finding): AlignedAllocator(ArenaAllocator(1024,8),64):alloc(0) takes 71
+   bytes from the arena and returns a pointer *)
+Theorem aligned_alloc_zero_refuted_proof : ~ aligned_alloc_zero_nil_full.
+Proof.
+  intros H. specialize (H (mkgcfg (mkacfg 4096 1024 8) 64) aligned_init). vm_compute in H. discriminate H.
+Qed.
